@@ -168,6 +168,35 @@ Section EvalFortran.
     cbn [setvals vals_of]. eapply agree_mono; [|apply (copy_endo_agree num zero d (vals_of s) p)].
     intros i j [Hi Hj]. split; [lia|split; assumption].
   Qed.
+
+  (* ---- FortranEngine._evaluate(t) (fortran.py:472-528) over subroutine evaluate (592-647): the explicit index tests,
+     codes 11 / 12 (t outside the span) and 13 / 14 (no room for the lags / leads), all surface as IndexError and the
+     model instance is left exactly as it was — no read ever wraps on this engine ---- *)
+  Lemma fortran_index_codes : existsb (Z.eqb c_below) w_e_index = true /\ existsb (Z.eqb c_above) w_e_index = true /\
+                              existsb (Z.eqb c_lags) w_e_index = true /\ existsb (Z.eqb c_leads) w_e_index = true /\
+                              c_below <> 0 /\ c_above <> 0.
+  Proof. repeat split; vm_compute; congruence. Qed.
+
+  Theorem fortran_evaluate_infeasible_rejected (fm : fmod) d t (s : mstate num) n :
+    fm_lags fm = Z.of_nat (lags d) -> fm_leads fm = Z.of_nat (leads d) ->
+    ncols_of num (vals_of s) = Z.of_nat n ->
+    (py_pos n t = None \/ exists p, py_pos n t = Some p /\ feasible d n p = false) ->
+    w_evaluate num evf fm t s = (s, Raise IndexError).
+  Proof.
+    intros Hl Hd Hn Hcase. unfold FSolve.w_evaluate, FSolve.t_evaluate. rewrite Hn.
+    destruct fortran_index_codes as (I1 & I2 & I3 & I4 & N1 & N2).
+    destruct fortran_codes_nonzero as (N3 & N4 & _).
+    assert (G : exists c, t_guard fm (Z.of_nat n) (t_index (Z.of_nat n) (t + 1)) = c /\ c <> 0 /\ existsb (Z.eqb c) w_e_index = true).
+    { destruct Hcase as [Hnone|(p & Hp & Hf)].
+      - unfold py_pos in Hnone. destruct ((t <? - Z.of_nat n) || (Z.of_nat n <=? t)) eqn:E; [|discriminate].
+        unfold t_guard, t_index. destruct (t + 1 <? 1) eqn:E1.
+        + destruct (t + 1 + Z.of_nat n <? 1) eqn:E2; [exists c_below; auto|]. exfalso. lia.
+        + replace (t + 1 <? 1) with false by lia. destruct (Z.of_nat n <? t + 1) eqn:E2; [exists c_above; auto|]. exfalso. lia.
+      - rewrite (f_index_pos n t p Hp). assert (Hlt : (p < n)%nat) by (apply py_pos_inv in Hp; lia).
+        destruct (f_guard_infeasible fm d n p Hl Hd Hlt Hf) as [->| ->]; [exists c_lags|exists c_leads]; auto. }
+    destruct G as (c & -> & Hc0 & Hin).
+    replace (c =? 0) with false by lia. replace (c =? 0) with false by lia. rewrite Hin. reflexivity.
+  Qed.
 End EvalFortran.
 
 (* ---------------- binary64 witness of the finding ---------------- *)
